@@ -69,6 +69,7 @@ def prepare(fkey, seed):
         return _PREP[key]
     fmt, size = FILES[fkey]
     boot.urandom.reset(seed, b"c10-prep-" + fkey.encode())
+    ms.reset_clock()
     c1, c2 = pattern(10 * seed + 1, size), pattern(10 * seed + 2, size)
     g = grid.Grid(N, client_kw=dict(k=K, n=N, happy=1))
     try:
@@ -189,6 +190,7 @@ def _execute(case, seed):
         blobs[sh] = b
     intact = [sh for sh in range(N) if case["slots"][str(sh)][0] == "v2"]
     boot.urandom.reset(seed, b"c10-exec")
+    ms.reset_clock()
     dup = case.get("dup")          # [shnum, spec]: a second copy of that share on a further server
     if dup is not None:
         blobs["dup"] = build(prep, dup[0], dup[1])
